@@ -202,7 +202,8 @@ def check_one(run, model, am, opts, nrel, rng, groups=None):
     if "C13" in opts:
         cls_nb = {}
         for a, d in c.nodes(data=True):
-            sig = (d["invariant_code"], tuple(sorted(c.nodes[b]["partition"] for b in c.neighbors(a))))
+            # element, isotope mass and radical state as the atom carries them (not the library's own invariant_code attribute)
+            sig = ((d["atomic_number"], d.get("mass", 0), d.get("rad", 0)), tuple(sorted(c.nodes[b]["partition"] for b in c.neighbors(a))))
             if cls_nb.setdefault(d["partition"], sig) != sig:
                 hit("C13", "partition is not equitable: one class, two (invariant, neighbour-class multiset) signatures",
                     {"class": d["partition"], "a": str(cls_nb[d["partition"]]), "b": str(sig)})
